@@ -19,6 +19,7 @@ import DateutilVerif.Proofs.TzStrTableJ
 import DateutilVerif.Proofs.TzStrTableN
 import DateutilVerif.Proofs.TzStrTableH
 import DateutilVerif.Proofs.TzStrRange
+import DateutilVerif.Model.TzRange
 
 namespace C08
 open TzStr Posix
@@ -258,6 +259,32 @@ theorem tzstr_posix_partial (s : Spec) (z : Zone) (hz : IsZoneOf s z)
   · rw [r2, hsv]
   · rw [r3]; rfl
 
+/-- **tzrange_eq_tzstr.** A `tzrange` built from a daylight-saving tzstr zone's abbreviations,
+    offsets and the two relativedeltas (`tzrange.__init__`, Model/TzRange.lean) is the same zone
+    record — hence equal under `tzrange.__eq__` (six fields), the same `tzrangebase` view and the
+    same answers to every query.  (`tdCheck`: the offsets are representable timedeltas, which
+    `tzstr.__init__` has already required; `truthy`: `hasdst = bool(start_delta)`.) -/
+theorem tzrange_eq_tzstr (z : Zone) (sd ed : Delta) (hd : z.hasdst = true)
+    (h1 : z.start = some sd) (h2 : z.«end» = some ed) (ht : sd.truthy = true)
+    (hc1 : tdCheck z.stdOff = .ok ()) (hc2 : tdCheck z.dstOff = .ok ()) :
+    tzrange z.stdAbbr (some z.stdOff) z.dstAbbr (some z.dstOff) z.start z.«end» = .ok z ∧
+    zoneEq z z = true ∧
+    ∀ z', tzrange z.stdAbbr (some z.stdOff) z.dstAbbr (some z.dstOff) z.start z.«end» = .ok z' →
+      zoneEq z' z = true ∧ TZ.ofTzStr z' = TZ.ofTzStr z := by
+  have hb : tzrange z.stdAbbr (some z.stdOff) z.dstAbbr (some z.dstOff) z.start z.«end» = .ok z := by
+    unfold tzrange
+    simp only [hc1, hc2, h1, h2, bind, Except.bind, pure, Except.pure, Option.isNone_some,
+      Bool.and_false, Bool.false_eq_true, if_false, ht]
+    cases z; simp_all
+  have hrefl : zoneEq z z = true := by
+    unfold zoneEq optDeltaEq deltaEq
+    rw [h1, h2]; simp
+  refine ⟨hb, hrefl, ?_⟩
+  intro z' hz'
+  rw [hb] at hz'
+  cases Except.ok.inj hz'
+  exact ⟨hrefl, rfl⟩
+
 /-- **C08 (no daylight part).** A string without a daylight abbreviation is a fixed-offset zone:
     no DST, no transitions in any year — for every string and either `posix_offset` setting. -/
 theorem no_dst_part_is_fixed (s : String) (posix : Bool) (z : Zone) (h : tzstr s posix = .ok z)
@@ -357,5 +384,8 @@ example : TZ.yearOf 1719835200 = 2024 ∧ TZ.yearOf (1719835200 + usSpec.stdOff)
     TZ.yearOf (1719835200 + usSpec.dstOff) = 2024 := by decide
 example : Posix.isDstAt usSpec (1719835200 + TZ.epochShift) = true := by decide
 example : (TZ.ofTzStr usZone).fromutc 1719835200 = .ok ⟨1719835200 - 14400, false⟩ := by decide
+
+example : ∃ sd ed, usZone.start = some sd ∧ usZone.«end» = some ed ∧ sd.truthy = true ∧
+    tdCheck usZone.stdOff = .ok () ∧ tdCheck usZone.dstOff = .ok () := ⟨_, _, rfl, rfl, by decide, by decide, by decide⟩
 
 end C08
